@@ -519,3 +519,66 @@ def r5(cx):
             cx.violation(fn, 'reselect-state-specific:%s' % fld, 'the reselection of the %s additionally depends on which state the job '
                          'went to (a test on the `state` argument): a suspended current/previous job that is killed or exits (not '
                          '"Running") is not replaced, so %%+ / %%- designate a dead job while suspended jobs exist' % fld, loc=body.loc(s))
+
+
+# --- explanation addendum (generated catalogue in DESIGN.md reads RS.explanation)
+RS.explanation += ' Added later: whether update_status reselects the current/previous job depends only on the suspended/not-suspended transition of the job (R5).'
+
+
+@RS.rule('C12.R3b', 'K-ORDER', 'insert with a process ID that is already listed behaves as remove + insert: the old job is removed (with the '
+         'reselection that removal implies) BEFORE the current/previous job are looked at for the new job')
+def r3b(cx):
+    F = cx.F
+    fn = JL + 'insert'
+    body = F.inlined(F.body(fn), accept=lambda n: n.startswith(JL) and (F.fns.get(n) or {}).get('vis') != 'pub')
+    cx.fn(body.fn)
+    removes = Q.find_calls(body, [JL + 'remove'])
+    looks = Q.find_calls(body, [JL + 'current_job', JL + 'previous_job'])
+    cx.require(looks, 'insert no longer looks at the current/previous job (anchor moved)')
+    inplace = [(b, t) for b, t in Q.find_calls(body, ['<slab::Slab<T> as core::ops::index::IndexMut<usize>>::index_mut'])]
+    du = Q.DefUse(body)
+    # "not listed yet" edges: the None edge of the lookup of the pid
+    absent = set()
+    for u in body.live_blocks():
+        ec = Q.edge_condition(F, body, du, u)
+        if ec and ec[0]['k'] == 'discr':
+            src = Q.value_source(body, du, {'cp': {'l': ec[0]['pl']['l']}})
+            if src is not None and Q.callee_is(src, [JL + 'find_by_pid', re.compile(r'HashMap::<K, V, S, A>::(get|remove|contains_key)$')]):
+                for tgt, labs in ec[1].items():
+                    if set(labs) == {('variant', 'None')}:
+                        absent.add((u, tgt))
+    ok = bool(removes) and all(body.shortest_path(0, {lb}, removed={rb for rb, _ in removes}, removed_edges=absent) is None for lb, _ in looks)
+    cx.site('%s: JobList::remove x%d before the look at current/previous job: %s; in-place overwrite of a slot x%d' % (body.fn, len(removes), ok, len(inplace)))
+    if not ok:
+        cx.violation(fn, 'same-pid-overwritten-in-place', 'a job whose process ID is already listed (the kernel reused the pid of a finished, not yet '
+                     'reported job) overwrites the old job\'s slot in place: the old job keeps its current/previous role and the new-job reselection '
+                     'runs on top of it - insert(pid 10 running), insert(pid 20 stopped), insert(pid 20 stopped) leaves two jobs and NO previous '
+                     'job (`%-`: job not found); the documentation of insert says the existing job is removed', loc=body.loc(looks[0][1]))
+
+
+@RS.rule('C12.R6', 'K-GUARD', 'a job number is an unsigned decimal: `%+1` / `%+` followed by digits is not job 1 (str::parse accepts a leading `+`)')
+def r6(cx):
+    F = cx.F
+    fn = 'yash_env::job::id::parse_tail'
+    body = F.body(fn)
+    cx.fn(body.fn)
+    du = Q.DefUse(body)
+    nums = Q.find_aggregates(body, re.compile(r'job::id::JobId(<.*>)?$'), 'JobNumber')
+    cx.require(nums, 'parse_tail no longer builds JobId::JobNumber')
+    parses = Q.find_calls(body, ['core::str::<impl str>::parse'])
+    cx.site('%s: JobId::JobNumber x%d from str::parse x%d' % (body.fn, len(nums), len(parses)))
+    if not parses:
+        return          # a hand-written digit parser: no sign accepted
+    for b, j, s in nums:
+        guarded = False
+        for org, lab, e in Q.implied_conditions(F, body, du, b):
+            if org['k'] == 'call' and re.search(r'::(starts_with|is_ascii_digit|strip_prefix|all|bytes|chars)$', pp.callee(org['t']).split(' ')[0]):
+                guarded = True
+        if not guarded:
+            # a plain scan for any sign/digit test on the text in the function
+            guarded = bool(Q.find_calls(body, [re.compile(r'str>::starts_with$|<impl str>::starts_with$|is_ascii_digit$')]))
+        cx.site('%s: JobNumber at %s behind a sign/digit test of the text: %s' % (body.fn, body.loc(s), guarded))
+        if not guarded:
+            cx.violation(fn, 'signed-job-number', 'the text after `%` is handed to str::parse::<NonZeroUsize>, which accepts a leading `+`: `%+1` '
+                         'designates job 1 (`jobs %+1`, `kill %+1`, `fg %+1`) although the documented forms are `%n`, `%+` alone and `%name` '
+                         '(a name prefix `+1`)', loc=body.loc(s))
